@@ -718,11 +718,13 @@ func (obj *SparseReal32Matrix) JointIterator(b ConstMatrix) MatrixJointIterator 
 }
 func (obj *SparseReal32Matrix) ITERATOR() *SparseReal32MatrixIterator {
   r := SparseReal32MatrixIterator{*obj.values.ITERATOR(), obj}
+  r.skipOutside()
   return &r
 }
 func (obj *SparseReal32Matrix) ITERATOR_FROM(i, j int) *SparseReal32MatrixIterator {
   k := obj.index(i, j)
   r := SparseReal32MatrixIterator{*obj.values.ITERATOR_FROM(k), obj}
+  r.skipOutside()
   return &r
 }
 func (obj *SparseReal32Matrix) JOINT_ITERATOR(b ConstMatrix) *SparseReal32MatrixJointIterator {
@@ -743,6 +745,20 @@ type SparseReal32MatrixIterator struct {
 }
 func (obj *SparseReal32MatrixIterator) Index() (int, int) {
   return obj.m.ij(obj.SparseReal32VectorIterator.Index())
+}
+// the iterator runs over the entries of the underlying storage; entries that
+// do not belong to this (sliced) view are skipped
+func (obj *SparseReal32MatrixIterator) Next() {
+  obj.SparseReal32VectorIterator.Next()
+  obj.skipOutside()
+}
+func (obj *SparseReal32MatrixIterator) skipOutside() {
+  for obj.SparseReal32VectorIterator.Ok() {
+    if i, j := obj.Index(); i >= 0 && i < obj.m.rows && j >= 0 && j < obj.m.cols {
+      break
+    }
+    obj.SparseReal32VectorIterator.Next()
+  }
 }
 func (obj *SparseReal32MatrixIterator) Clone() *SparseReal32MatrixIterator {
   return &SparseReal32MatrixIterator{*obj.SparseReal32VectorIterator.Clone(), obj.m}
